@@ -95,6 +95,11 @@ structure BlockShape (pos : Nat) (bs : List Bool) (b : MetaBlock) (pos' : Nat) (
   last : b = MetaBlock.lastEmpty ↔ H = [true, true]
   lastB : b = MetaBlock.lastEmpty → B = []
   first : ∀ x, H.head? = some x → (x = true ↔ b = MetaBlock.lastEmpty)
+  /-- the three header forms: empty-last; metadata (reserved bit 0, 2 bits MSKIPBYTES, the length
+  bytes); uncompressed (2 bits MNIBBLES ≠ 3, the length nibbles, ISUNCOMPRESSED = 1) -/
+  form : H = [true, true] ∨
+    (∃ s0 s1 XB, H = [false, true, true, false, s0, s1] ++ XB ∧ XB.length = 8 * valOf [s0, s1]) ∨
+    (∃ c0 c1 XB, H = [false, c0, c1] ++ XB ++ [true] ∧ valOf [c0, c1] ≠ 3 ∧ XB.length = 4 * (4 + valOf [c0, c1]))
   anywhere : ∀ q X, readMetaBlock q (H ++ zeros (padLen (q + H.length)) ++ B ++ X)
     = some (b, q + H.length + padLen (q + H.length) + B.length, X)
 
@@ -141,5 +146,366 @@ theorem rm_meta (q : Nat) (s0 s1 : Bool) (XB B : List Bool) (l : List Nat) (X : 
     rw [e1]; exact e2
   rw [hBl]
   rfl
+
+/-- evaluation: an uncompressed meta-block -/
+theorem rm_raw (q : Nat) (c0 c1 : Bool) (XB B : List Bool) (l : List Nat) (X : List Bool)
+    (hmn : valOf [c0, c1] ≠ 3) (hXB : XB.length = 4 * (4 + valOf [c0, c1]))
+    (hchk : ¬ (4 + valOf [c0, c1] > 4 ∧ valOf XB / 2 ^ (4 * (4 + valOf [c0, c1] - 1)) = 0))
+    (hB : ∀ Y, takeBytes (valOf XB + 1) (B ++ Y) = some (l, Y)) :
+    readMetaBlock q (([false, c0, c1] ++ XB ++ [true]) ++
+        zeros (padLen (q + ([false, c0, c1] ++ XB ++ [true]).length)) ++ B ++ X)
+      = some (MetaBlock.raw l, q + ([false, c0, c1] ++ XB ++ [true]).length +
+          padLen (q + ([false, c0, c1] ++ XB ++ [true]).length) + B.length, X) := by
+  have hlen : ([false, c0, c1] ++ XB ++ [true]).length = 4 + 4 * (4 + valOf [c0, c1]) := by
+    simp [hXB]; omega
+  rw [hlen]
+  have hpos : q + 1 + 2 + 4 * (4 + valOf [c0, c1]) + 1 = q + (4 + 4 * (4 + valOf [c0, c1])) := by omega
+  have h2 : takeVal 2 (c0 :: c1 :: (XB ++ (true :: (zeros (padLen (q + (4 + 4 * (4 + valOf [c0, c1])))) ++ (B ++ X)))))
+      = some (valOf [c0, c1], XB ++ (true :: (zeros (padLen (q + (4 + 4 * (4 + valOf [c0, c1])))) ++ (B ++ X)))) := by
+    simp [takeVal]
+  have h4 : takeVal (4 * (4 + valOf [c0, c1])) (XB ++ (true :: (zeros (padLen (q + (4 + 4 * (4 + valOf [c0, c1])))) ++ (B ++ X))))
+      = some (valOf XB, true :: (zeros (padLen (q + (4 + 4 * (4 + valOf [c0, c1])))) ++ (B ++ X))) := by
+    rw [← hXB]; exact takeVal_app XB _
+  simp only [readMetaBlock, List.cons_append, List.nil_append, List.append_assoc, Bool.false_eq_true, if_false, h2,
+    hmn, h4, hpos, hchk, skipPad_zeros, hB, Option.map_some]
+  have hBl : B.length = 8 * (valOf XB + 1) := by
+    have := hB []
+    rw [List.append_nil] at this
+    obtain ⟨B', e1, e2, _⟩ := takeBytes_some _ _ _ _ this
+    rw [List.append_nil] at e1
+    rw [e1]; exact e2
+  rw [hBl]
+  rfl
+
+theorem shape_of_eval (pos : Nat) (bs : List Bool) (b : MetaBlock) (pos' : Nat) (r' : List Bool) (H B : List Bool)
+    (b0 : MetaBlock)
+    (h : readMetaBlock pos bs = some (b, pos', r'))
+    (hsplit : bs = H ++ zeros (padLen (pos + H.length)) ++ B ++ r')
+    (heval : ∀ q X, readMetaBlock q (H ++ zeros (padLen (q + H.length)) ++ B ++ X)
+      = some (b0, q + H.length + padLen (q + H.length) + B.length, X))
+    (hB8 : B.length % 8 = 0) (h2 : 2 ≤ H.length) (hlast : b0 = MetaBlock.lastEmpty ↔ H = [true, true])
+    (hlastB : b0 = MetaBlock.lastEmpty → B = [])
+    (hfirst : ∀ x, H.head? = some x → (x = true ↔ b0 = MetaBlock.lastEmpty))
+    (hform : H = [true, true] ∨
+      (∃ s0 s1 XB, H = [false, true, true, false, s0, s1] ++ XB ∧ XB.length = 8 * valOf [s0, s1]) ∨
+      (∃ c0 c1 XB, H = [false, c0, c1] ++ XB ++ [true] ∧ valOf [c0, c1] ≠ 3 ∧ XB.length = 4 * (4 + valOf [c0, c1]))) :
+    BlockShape pos bs b pos' r' H B := by
+  have := heval pos r'
+  rw [← hsplit, h] at this
+  simp only [Option.some.injEq, Prod.mk.injEq] at this
+  obtain ⟨rfl, rfl, _⟩ := this
+  exact ⟨hsplit, hB8, rfl, h2, hlast, hlastB, hfirst, hform, heval⟩
+
+theorem takeBytes_len8 {n : Nat} {B : List Bool} {l : List Nat} (hB : ∀ Y, takeBytes n (B ++ Y) = some (l, Y)) :
+    B.length % 8 = 0 := by
+  have := hB []
+  rw [List.append_nil] at this
+  obtain ⟨B', e1, e2, _⟩ := takeBytes_some _ _ _ _ this
+  rw [List.append_nil] at e1
+  rw [e1, e2]; omega
+
+/-- every meta-block the reader accepts without entropy decoding has this shape -/
+theorem readMetaBlock_shape (pos : Nat) (bs : List Bool) (b : MetaBlock) (pos' : Nat) (r' : List Bool)
+    (h : readMetaBlock pos bs = some (b, pos', r')) (hb : ∀ m l, b ≠ MetaBlock.compressed m l) :
+    ∃ H B, BlockShape pos bs b pos' r' H B := by
+  have h0 := h
+  cases bs with
+  | nil => simp [readMetaBlock] at h
+  | cons isLast r1 =>
+    cases isLast with
+    | true =>
+      cases r1 with
+      | nil => simp [readMetaBlock] at h
+      | cons e r =>
+        cases e with
+        | true =>
+          simp only [readMetaBlock, if_true, Option.map_eq_some_iff] at h
+          obtain ⟨rr, hsk, hrr⟩ := h
+          simp only [Prod.mk.injEq] at hrr
+          obtain ⟨_, _, rfl⟩ := hrr
+          have hsp := skipPad_some hsk
+          have e2 : pos + 1 + 1 = pos + 2 := by omega
+          rw [e2] at hsp
+          refine ⟨[true, true], [], shape_of_eval pos _ b pos' rr _ _ MetaBlock.lastEmpty h0 ?_ rm_last rfl
+            (by simp) (by simp) (fun _ => rfl) (by simp) (Or.inl rfl)⟩
+          simp [hsp]
+        | false =>
+          exfalso
+          simp only [readMetaBlock, if_true] at h
+          cases hv : takeVal 2 r with
+          | none => rw [hv] at h; simp at h
+          | some p =>
+            obtain ⟨mn, rr⟩ := p
+            rw [hv] at h
+            dsimp only at h
+            by_cases h3 : mn = 3
+            · simp [h3] at h
+            · rw [if_neg h3] at h
+              cases hv2 : takeVal (4 * (4 + mn)) rr with
+              | none => rw [hv2] at h; simp at h
+              | some p2 =>
+                obtain ⟨x, r2⟩ := p2
+                rw [hv2] at h
+                dsimp only at h
+                split at h
+                · simp at h
+                · simp only [Option.some.injEq, Prod.mk.injEq] at h
+                  exact hb _ _ h.1.symm
+    | false =>
+      simp only [readMetaBlock, Bool.false_eq_true, if_false] at h
+      cases hv : takeVal 2 r1 with
+      | none => rw [hv] at h; simp at h
+      | some p =>
+        obtain ⟨mn, rr⟩ := p
+        rw [hv] at h
+        dsimp only at h
+        obtain ⟨e1, e2, e3⟩ := takeVal_some hv
+        -- the two MNIBBLES bits
+        obtain ⟨c0, c1, hc⟩ : ∃ c0 c1, r1.take 2 = [c0, c1] := by
+          match hl : r1.take 2, e2 with
+          | [c0, c1], _ => exact ⟨c0, c1, rfl⟩
+        rw [hc] at e1 e3
+        by_cases h3 : mn = 3
+        · -- metadata
+          rw [if_pos h3] at h
+          cases rr with
+          | nil => simp at h
+          | cons rsv r2 =>
+            cases rsv with
+            | true => simp at h
+            | false =>
+              dsimp only at h
+              cases hv2 : takeVal 2 r2 with
+              | none => rw [hv2] at h; simp at h
+              | some p2 =>
+                obtain ⟨sb, r3⟩ := p2
+                rw [hv2] at h
+                dsimp only at h
+                obtain ⟨f1, f2, f3⟩ := takeVal_some hv2
+                obtain ⟨s0, s1, hs⟩ : ∃ s0 s1, r2.take 2 = [s0, s1] := by
+                  match hl : r2.take 2, f2 with
+                  | [s0, s1], _ => exact ⟨s0, s1, rfl⟩
+                rw [hs] at f1 f3
+                cases hv3 : takeVal (8 * sb) r3 with
+                | none => rw [hv3] at h; simp at h
+                | some p3 =>
+                  obtain ⟨x, r4⟩ := p3
+                  rw [hv3] at h
+                  dsimp only at h
+                  obtain ⟨g1, g2, g3⟩ := takeVal_some hv3
+                  by_cases hchk : sb > 1 ∧ x / 2 ^ (8 * (sb - 1)) = 0
+                  · rw [if_pos hchk] at h; simp at h
+                  rw [if_neg hchk] at h
+                  cases hsk : skipPad (pos + 1 + 2 + 3 + 8 * sb) r4 with
+                  | none => rw [hsk] at h; simp at h
+                  | some r5 =>
+                    rw [hsk] at h
+                    dsimp only at h
+                    simp only [Option.map_eq_some_iff] at h
+                    obtain ⟨pr, htb, hpr⟩ := h
+                    obtain ⟨l, r6⟩ := pr
+                    simp only [Prod.mk.injEq] at hpr
+                    obtain ⟨_, _, rfl⟩ := hpr
+                    obtain ⟨B, eB, lB, hB⟩ := takeBytes_some _ _ _ _ htb
+                    have hsp := skipPad_some hsk
+                    have hc01 : c0 = true ∧ c1 = true := by
+                      rw [e3] at h3
+                      cases c0 <;> cases c1 <;> simp [valOf] at h3 ⊢
+                    obtain ⟨rfl, rfl⟩ := hc01
+                    generalize hXdef : r3.take (8 * sb) = XB at g1 g2 g3
+                    have hXBl : XB.length = 8 * valOf [s0, s1] := by rw [g2, f3]
+                    have hHl : ([false, true, true, false, s0, s1] ++ XB).length = 6 + 8 * sb := by
+                      simp [g2]; omega
+                    refine ⟨[false, true, true, false, s0, s1] ++ XB, B,
+                      shape_of_eval pos _ b pos' r6 _ _ (MetaBlock.metadata l) h0 ?_ ?_ (takeBytes_len8 hB)
+                        (by simp) (by simp) (by simp) (by simp) (Or.inr (Or.inl ⟨s0, s1, XB, rfl, hXBl⟩))⟩
+                    · have hp : pos + 1 + 2 + 3 + 8 * sb = pos + (6 + 8 * sb) := by omega
+                      rw [hp] at hsp
+                      rw [hHl, e1, f1, g1, hsp, eB]
+                      simp [List.append_assoc]
+                    · intro q X
+                      refine rm_meta q s0 s1 _ B l X hXBl ?_ ?_
+                      · rw [← f3, ← g3]; exact hchk
+                      · rw [← f3, ← g3]; exact hB
+        · -- uncompressed (or compressed: excluded)
+          rw [if_neg h3] at h
+          cases hv2 : takeVal (4 * (4 + mn)) rr with
+          | none => rw [hv2] at h; simp at h
+          | some p2 =>
+            obtain ⟨x, r2⟩ := p2
+            rw [hv2] at h
+            dsimp only at h
+            obtain ⟨g1, g2, g3⟩ := takeVal_some hv2
+            by_cases hchk : 4 + mn > 4 ∧ x / 2 ^ (4 * (4 + mn - 1)) = 0
+            · rw [if_pos hchk] at h; simp at h
+            rw [if_neg hchk] at h
+            try simp only [Bool.false_eq_true, if_false] at h
+            cases r2 with
+            | nil => simp at h
+            | cons u r3 =>
+              cases u with
+              | false =>
+                exfalso
+                simp only [Option.some.injEq, Prod.mk.injEq] at h
+                exact hb _ _ h.1.symm
+              | true =>
+                dsimp only at h
+                cases hsk : skipPad (pos + 1 + 2 + 4 * (4 + mn) + 1) r3 with
+                | none => rw [hsk] at h; simp at h
+                | some r5 =>
+                  rw [hsk] at h
+                  dsimp only at h
+                  simp only [Option.map_eq_some_iff] at h
+                  obtain ⟨pr, htb, hpr⟩ := h
+                  obtain ⟨l, r6⟩ := pr
+                  simp only [Prod.mk.injEq] at hpr
+                  obtain ⟨_, _, rfl⟩ := hpr
+                  obtain ⟨B, eB, lB, hB⟩ := takeBytes_some _ _ _ _ htb
+                  have hsp := skipPad_some hsk
+                  have hmn : valOf [c0, c1] ≠ 3 := by rw [← e3]; exact h3
+                  generalize hXdef : rr.take (4 * (4 + mn)) = XB at g1 g2 g3
+                  have hXBl : XB.length = 4 * (4 + valOf [c0, c1]) := by rw [g2, e3]
+                  have hHl : ([false, c0, c1] ++ XB ++ [true]).length = 4 + 4 * (4 + mn) := by
+                    simp [g2]; omega
+                  refine ⟨[false, c0, c1] ++ XB ++ [true], B,
+                    shape_of_eval pos _ b pos' r6 _ _ (MetaBlock.raw l) h0 ?_ ?_ (takeBytes_len8 hB)
+                      (by simp) (by simp) (by simp) (by simp) (Or.inr (Or.inr ⟨c0, c1, XB, rfl, hmn, hXBl⟩))⟩
+                  · have hp : pos + 1 + 2 + 4 * (4 + mn) + 1 = pos + (4 + 4 * (4 + mn)) := by omega
+                    rw [hp] at hsp
+                    rw [hHl, e1, g1, hsp, eB]
+                    simp [List.append_assoc]
+                  · intro q X
+                    refine rm_raw q c0 c1 _ B l X hmn hXBl ?_ ?_
+                    · rw [← e3, ← g3]; exact hchk
+                    · rw [← g3]; exact hB
+
+/-! ### the window field -/
+
+/-- `readWbits` consumes a prefix `wb` of 1, 4, 7 or 14 bits and does not look further -/
+theorem readWbits_local (bs : List Bool) (w : Nat) (lg : Bool) (r : List Bool)
+    (h : readWbits bs = some (w, lg, r)) :
+    ∃ wb, bs = wb ++ r ∧ (∀ X, readWbits (wb ++ X) = some (w, lg, X)) ∧
+      (wb.length = 1 ∨ wb.length = 4 ∨ wb.length = 7 ∨ wb.length = 14) ∧ (lg = true ↔ wb.length = 14) := by
+  match bs, h with
+  | false :: r0, h =>
+    simp only [readWbits, Option.some.injEq, Prod.mk.injEq] at h
+    obtain ⟨rfl, rfl, rfl⟩ := h
+    exact ⟨[false], rfl, fun X => rfl, Or.inl rfl, by simp⟩
+  | true :: b1 :: b2 :: b3 :: r0, h =>
+    by_cases hn : valOf [b1, b2, b3] ≠ 0
+    · simp only [readWbits, hn, ne_eq, not_false_eq_true, if_true, Option.some.injEq, Prod.mk.injEq] at h
+      obtain ⟨rfl, rfl, rfl⟩ := h
+      refine ⟨[true, b1, b2, b3], rfl, fun X => ?_, Or.inr (Or.inl rfl), by simp⟩
+      simp [readWbits, hn]
+    · have hn0 : valOf [b1, b2, b3] = 0 := by simpa using hn
+      rcases r0 with _ | ⟨c1, _ | ⟨c2, _ | ⟨c3, r1⟩⟩⟩
+      · simp [readWbits, hn0] at h
+      · simp [readWbits, hn0] at h
+      · simp [readWbits, hn0] at h
+      by_cases hm0 : valOf [c1, c2, c3] = 0
+      · simp only [readWbits, hn0, ne_eq, not_true_eq_false, if_false, hm0, if_true, Option.some.injEq,
+          Prod.mk.injEq] at h
+        obtain ⟨rfl, rfl, rfl⟩ := h
+        refine ⟨[true, b1, b2, b3, c1, c2, c3], rfl, fun X => ?_, Or.inr (Or.inr (Or.inl rfl)), by simp⟩
+        simp [readWbits, hn0, hm0]
+      · by_cases hm1 : valOf [c1, c2, c3] = 1
+        · rcases r1 with _ | ⟨x0, _ | ⟨d0, _ | ⟨d1, _ | ⟨d2, _ | ⟨d3, _ | ⟨d4, _ | ⟨d5, r2⟩⟩⟩⟩⟩⟩⟩
+          all_goals try (cases x0 <;> simp [readWbits, hn0, hm1] at h <;> done)
+          · simp [readWbits, hn0, hm1] at h
+          cases x0 with
+          | true => simp [readWbits, hn0, hm1] at h
+          | false =>
+            simp only [readWbits, hn0, ne_eq, not_true_eq_false, if_false, hm1, if_true] at h
+            by_cases hw : 10 ≤ valOf [d0, d1, d2, d3, d4, d5] ∧ valOf [d0, d1, d2, d3, d4, d5] ≤ 30
+            · rw [if_pos hw] at h
+              injection h with h
+              injection h with h1 h2
+              injection h2 with h2 h3
+              subst h1 h2 h3
+              refine ⟨[true, b1, b2, b3, c1, c2, c3, false, d0, d1, d2, d3, d4, d5], rfl, fun X => ?_,
+                Or.inr (Or.inr (Or.inr rfl)), by simp⟩
+              simp [readWbits, hn0, hm1, hw]
+            · rw [if_neg hw] at h; simp at h
+        · simp only [readWbits, hn0, ne_eq, not_true_eq_false, if_false, hm0, hm1, Option.some.injEq,
+            Prod.mk.injEq] at h
+          obtain ⟨rfl, rfl, rfl⟩ := h
+          refine ⟨[true, b1, b2, b3, c1, c2, c3], rfl, fun X => ?_, Or.inr (Or.inr (Or.inl rfl)), by simp⟩
+          simp [readWbits, hn0, hm0, hm1]
+  | [true], h => simp [readWbits] at h
+  | [true, _], h => simp [readWbits] at h
+  | [true, _, _], h => simp [readWbits] at h
+  | [], h => simp [readWbits] at h
+
+/-! ### sequences of meta-blocks -/
+
+/-- the blocks `bl` (metadata / uncompressed only) are read one after the other from `bs`
+starting at bit position `pos`, ending at `pos'` with `r'` left -/
+inductive FramesTo : Nat → List Bool → List MetaBlock → Nat → List Bool → Prop where
+  | nil (pos : Nat) (bs : List Bool) : FramesTo pos bs [] pos bs
+  | cons (pos : Nat) (bs : List Bool) (b : MetaBlock) (p1 : Nat) (r1 : List Bool) (bl : List MetaBlock)
+      (p' : Nat) (r' : List Bool)
+      (hread : readMetaBlock pos bs = some (b, p1, r1))
+      (hkind : (∀ m l, b ≠ MetaBlock.compressed m l) ∧ b ≠ MetaBlock.lastEmpty)
+      (hrest : FramesTo p1 r1 bl p' r') : FramesTo pos bs (b :: bl) p' r'
+
+theorem padLen_mod (a b : Nat) (h : a % 8 = b % 8) : padLen a = padLen b := by
+  unfold padLen; rw [h]
+
+/-- the same blocks are read from the same bits at any position that is congruent mod 8,
+whatever follows them -/
+theorem framesTo_move (pos : Nat) (bs : List Bool) (bl : List MetaBlock) (p' : Nat) (r' : List Bool)
+    (h : FramesTo pos bs bl p' r') :
+    ∃ C, bs = C ++ r' ∧ p' = pos + C.length ∧
+      ∀ q X, q % 8 = pos % 8 → FramesTo q (C ++ X) bl (q + C.length) X := by
+  induction h with
+  | nil pos bs => exact ⟨[], rfl, rfl, fun q X _ => FramesTo.nil q X⟩
+  | cons pos bs b p1 r1 bl p' r' hread hkind _ ih =>
+    obtain ⟨C1, e1, e2, hmove⟩ := ih
+    obtain ⟨H, B, hs⟩ := readMetaBlock_shape pos bs b p1 r1 hread hkind.1
+    refine ⟨H ++ zeros (padLen (pos + H.length)) ++ B ++ C1, ?_, ?_, fun q X hq => ?_⟩
+    · rw [hs.split, e1]; simp [List.append_assoc]
+    · rw [e2, hs.pos_eq]; simp [zeros]; omega
+    · have hpad : padLen (pos + H.length) = padLen (q + H.length) := padLen_mod _ _ (by omega)
+      have hp1 : p1 % 8 = 0 := by
+        rw [hs.pos_eq]
+        have := hs.body8
+        unfold padLen; omega
+      have hq1 : (q + H.length + padLen (q + H.length) + B.length) % 8 = p1 % 8 := by
+        rw [hp1]; have := hs.body8; unfold padLen; omega
+      have hr := hs.anywhere q (C1 ++ X)
+      rw [← hpad] at hr
+      have := hmove (q + H.length + padLen (q + H.length) + B.length) X hq1
+      refine FramesTo.cons q _ b _ (C1 ++ X) bl _ X (by
+        rw [hpad]; rw [hpad] at hr
+        simpa [List.append_assoc] using hr) hkind ?_
+      have e : q + (H ++ zeros (padLen (pos + H.length)) ++ B ++ C1).length
+          = q + H.length + padLen (q + H.length) + B.length + C1.length := by
+        simp [zeros, hpad]; omega
+      rw [e]; exact this
+
+theorem framesTo_append (pos : Nat) (bs : List Bool) (bl1 bl2 : List MetaBlock) (p1 : Nat) (r1 : List Bool)
+    (p2 : Nat) (r2 : List Bool) (h1 : FramesTo pos bs bl1 p1 r1) (h2 : FramesTo p1 r1 bl2 p2 r2) :
+    FramesTo pos bs (bl1 ++ bl2) p2 r2 := by
+  induction h1 with
+  | nil => exact h2
+  | cons pos bs b p1' r1' bl p' r' hread hkind _ ih => exact FramesTo.cons pos bs b p1' r1' _ p2 r2 hread hkind (ih h2)
+
+/-- the reader's answer for a framed stream that ends with the empty last meta-block -/
+theorem decodeFraming_of_frames (pos : Nat) (bs : List Bool) (bl : List MetaBlock) (p' : Nat) (r' : List Bool)
+    (h : FramesTo pos bs bl p' r') (p'' : Nat) (r'' : List Bool)
+    (hlast : readMetaBlock p' r' = some (MetaBlock.lastEmpty, p'', r'')) :
+    decodeFraming (bl.length + 1) pos bs = some (bl ++ [MetaBlock.lastEmpty]) := by
+  induction h with
+  | nil pos bs => simp [decodeFraming, hlast]
+  | cons pos bs b p1 r1 bl p' r' hread hkind _ ih =>
+    have := ih hlast
+    rw [List.length_cons]
+    unfold decodeFraming
+    rw [hread]
+    cases b with
+    | lastEmpty => exact absurd rfl hkind.2
+    | compressed m l => exact absurd rfl (hkind.1 m l)
+    | metadata pl => simp [this]
+    | raw pl => simp [this]
 
 end BV.Framing
